@@ -335,7 +335,18 @@ func VC14_Equal() {
 	_, patP := c14Mk(v6)
 	_, pat2P := c14Mk(v6)
 	c, _, _, _, _, _, _, _ := c14EqChain(v6, patP, pat2P, variant)
-	d, _, _, _, _, _, _, _ := c14EqChain(v6, patP, pat2P, variant)
+	patD, pat2D := patP, pat2P
+	if vParam("ownpat") == 1 {
+		// the second chain is built over its own pattern / prefix-list objects holding symbolic prefixes (or shares the
+		// first chain's): whatever notion of equality Equal uses for them must imply equal behaviour
+		if ndBool() {
+			_, patD = c14Mk(v6)
+		}
+		if ndBool() {
+			_, pat2D = c14Mk(v6)
+		}
+	}
+	d, _, _, _, _, _, _, _ := c14EqChain(v6, patD, pat2D, variant)
 	_, qP := c14Mk(v6)
 	pa := c14Path(true)
 	vAssume(c.Equal(d))
